@@ -105,7 +105,66 @@ def oracle(ctx, case, got):
         ctx.fail(slim, f'shorthand is not isomorphic to the written-out string {long_s}', finding=fid)
 
 
+def fragment_mult_case(rng):
+    """a coarse fragment definition that uses node multipliers, with bonding descriptors and annotated beads behind them:
+    the shorthand and the written-out definition must give the same fragment (names, weights, descriptors on the same
+    beads, bond orders)"""
+    n = rng.randint(2, 4)
+    short, long = '', ''
+    r7 = False
+    seen_big = False
+    for i in range(n):
+        name = rng.choice(['B', 'C', 'D'])
+        w = rng.choice([None, None, None, None, '2', '0.5'])
+        node = '[#%s%s]' % (name, ';w=' + w if w else '')
+        m = rng.choice([1, 1, 1, 2, 2, 2, 3, 4])
+        desc = rng.choice(['', '', '[$x]', '[>]', '[$y][<]'])
+        sym = rng.choice(['', '', '=']) if i else ''
+        if seen_big and (w or desc):
+            r7 = True
+        short += sym + node + ('|%d' % m if m > 1 else '') + desc
+        long += sym + node + node * (m - 1) + desc
+        if m >= 2 and w:
+            r7 = True          # the annotation of a multiplied bead reaches one copy only
+        if m >= 3:
+            seen_big = True
+            if desc:
+                r7 = True
+    return {'kind': 'fragment-mult', 's': '{#A=%s}' % short, 'longhand': '{#A=%s}' % long, 'r7': r7}
+
+
+def fragment_mult_oracle(ctx, case):
+    import networkx as nx
+    from cgsmiles.read_fragments import read_fragments
+    got = []
+    for s in (case['s'], case['longhand']):
+        try:
+            with lib.quiet():
+                got.append(read_fragments(s, all_atom=False)['A'])
+        except Exception as err:    # noqa: BLE001
+            got.append(lib.err_class(err))
+    ctx.count('fragment-mult', lib.stable_hash(case['s']), nontrivial='|' in case['s'], sample=case['s'])
+    fid = 'R7' if case['r7'] else None
+    if isinstance(got[1], str):
+        return
+    if isinstance(got[0], str):
+        ctx.fail(case, f'fragment definition with node multipliers rejected ({got[0]}), the written-out definition is read', finding=fid)
+        return
+
+    def nm(a, b):
+        return a.get('atomname') == b.get('atomname') and a.get('weight') == b.get('weight') and \
+            sorted(a.get('bonding', []) or []) == sorted(b.get('bonding', []) or [])
+    if not nx.is_isomorphic(got[0], got[1], node_match=nm, edge_match=lambda a, b: a.get('order') == b.get('order')):
+        ctx.fail(case, f'fragment definition {case["s"]} is not the written-out definition {case["longhand"]}: '
+                       f'descriptors / weights sit on other beads', finding=fid)
+
+
 def run(ctx):
+    rng2 = ctx.rng('fragment-mult')
+    for _ in range(ctx.budget(150, 3000)):
+        c = fragment_mult_case(rng2)
+        ctx.feature('fragment-mult:' + ('R7-shape' if c['r7'] else 'must-hold'))
+        fragment_mult_oracle(ctx, c)
     rng = ctx.rng('mult')
     for i in range(ctx.budget(2500, 50000)):
         if ctx.out_of_time():
@@ -120,6 +179,9 @@ def run(ctx):
 
 def corpus_case(ctx, payload):
     case = payload.get('case', {})
+    if case.get('kind') == 'fragment-mult':
+        fragment_mult_oracle(ctx, case)
+        return
     suites.run_read_case(ctx, 'corpus', case['s'], oracle=oracle, case=case)
 
 
@@ -127,7 +189,10 @@ def replay(payload):
     import check
     ctx = check.Ctx(PROP, 'quick', 0, oracle_only=True)
     case = payload['case']
-    got = suites.run_read_case(ctx, 'replay', case['s'], oracle=oracle, case=case)
+    if case.get('kind') == 'fragment-mult':
+        fragment_mult_oracle(ctx, case)
+    else:
+        suites.run_read_case(ctx, 'replay', case['s'], oracle=oracle, case=case)
     print('input:', case['s'], ' written out:', case.get('longhand'))
     for c, what, fid in ctx.failures:
         print('FAILS:', what, f'[{fid}]' if fid else '')
@@ -147,5 +212,8 @@ def finding_still_fails(f):
         payload = json.load(fh)
     ctx = check.Ctx(PROP, 'quick', 0, oracle_only=True)
     case = payload['case']
-    suites.run_read_case(ctx, 'finding', case['s'], oracle=oracle, case=case)
+    if case.get('kind') == 'fragment-mult':
+        fragment_mult_oracle(ctx, case)
+    else:
+        suites.run_read_case(ctx, 'finding', case['s'], oracle=oracle, case=case)
     return bool(ctx.failures)
